@@ -284,7 +284,8 @@ def same_object(spec, part):
         elif i % 2 == 0:
             cA, cB = rnd.sample((1, 2, 5, 10, 40, 125), 2)
             sc = {"transport": transport, "framing": framing, "keep_alive": ka, "T": 1, "R": 1,
-                  "by_reg": {2000: [["delay", 0.3]], 3000: ["now"]}, "after": "now",
+                  # (B queues behind A and is then answered up to 0.8 T after ITS transmission: still in time)
+                  "by_reg": {2000: [["delay", rnd.choice((0.3, 0.6))]], 3000: [["delay", rnd.choice((0.0, 0.5, 0.8))]]}, "after": "now",
                   "tasks": [{"start": 0.0, "steps": [["read", 2000, cA]]}, {"start": rnd.choice((0.0, 0.1, 0.29)), "steps": [["read", 3000, cB]]}]}
             want_tx = {2000: 1, 3000: 1}
             label = f"two concurrent reads ({cA} and {cB} registers)"
